@@ -28,7 +28,7 @@ out = ["# Seeded changes", "",
        "thorough) check run, and the change undone (`git checkout -- .`). `replay-*.json` is the replay our check produced.", "",
        "| id | files touched | change (first line of the agent's notes) | confirmed | our check | first reacting component |", "|---|---|---|---|---|---|"] + rows
 out += ["", "## Missed at first, and what was strengthened", "",
-        "Six of the forty changes were not reported by the first evaluation run; each led to a change of the machinery, after which the",
+        "Round 1 (`Cnn-k`): six of the forty changes were not reported by the first evaluation run; each led to a change of the machinery, after which the",
         "evaluation was repeated (the table above shows the final run):", "",
         "* **C01-1** (share-class end-blocker pays an unbonding inside its completion second → EndBlock error): C01 only ran its own",
         "  `halt` scenarios; it now also runs the `share`, `da`, `gauge`, `mint`, `govtally`, `fee` suites and treats every `no_halt`/`no_hang`",
@@ -44,6 +44,29 @@ out += ["", "## Missed at first, and what was strengthened", "",
         "  source hashes of those four functions and `sd_unreachable_sources_pinned` pins them (an edit re-opens the obligation:",
         "  `no-failing-input-found`).",
         "* **C19-2** (`InitGenesis` skips empty gauge votes): the history never withdrew a vote; it now sends an empty `MsgVoteGauge`.",
-        "* C16-1/2 had a prose `demo_cmd.txt`; it was rewritten as the command it describes before confirming."]
+        "* C16-1/2 had a prose `demo_cmd.txt`; it was rewritten as the command it describes before confirming.",
+        "",
+        "## Round 2 (`Cnn-r2-k`): subtler changes",
+        "",
+        "A second set of forty changes was written by fresh sub-agents told to prefer breakage that needs a particular state, ordering or",
+        "parameter regime. First evaluation: 37 of 40 reported (29 by the quick tier, 8 only by the thorough tier), 3 missed. Each miss and each",
+        "thorough-only catch led to a change of the machinery; the table shows the re-evaluation after those changes.",
+        "",
+        "* **C12-r2-2** (`checkUnbondingEntriesMature` stops the walk at the first validator with a pending entry): the `lockup` suite and the",
+        "  Lean model use ONE validator; the new directed suite `lockup2` (two validators, undelegate from the later key first, send between",
+        "  the two maturities) evaluates the `outflow_bound` oracle.",
+        "* **C18-r2-1** (fee params cached inside the ante decorator): params never changed during a history; the `fee` suite now sends",
+        "  `MsgUpdateParams` between its two rounds and keeps using the same decorator instances.",
+        "* **C19-r2-2** (`InitGenesis` sets the position counter to highest live id + 1): no history closed its newest position; the",
+        "  genesis histories now open and fully withdraw a position while older ones stay open.",
+        "* thorough-only → quick: **C01-r2-1** hidden negative vote weight (generator now hides a negative weight behind a larger positive",
+        "  one); **C04-r2-1 / C05-r2-1** need a swap that ends exactly on an initialised tick (generator computes the whole-unit input that lands",
+        "  on the next tick); **C04-r2-2** needs a dust residue withdrawn in a second step (generator leaves residues); **C06-r2-2** needs an",
+        "  exact-out swap crossing a tick after a fee-bearing step (the same tick-landing swaps); **C10-r2-1** needs a slashed validator (slashing",
+        "  now also in a third of the quick histories); **C11-r2-1** needs both legs on different channels with equal sequences (plain transfers pad",
+        "  the channel that is behind); **C20-r2-2** needs the same proof bytes twice in one message (two new scenarios).",
+        "* Two panics on the UNCHANGED tree were noticed by a seeding agent while probing: `CalculationCreatePosition` on a pool without",
+        "  positions (division by zero) — reproduced by a new structured query grid, repaired (`fix:` 5450c47, C15-Q2) — and `Int overflow` for",
+        "  astronomically large parallel-route weights, which is the recorded class C15-K3."]
 open(os.path.join(VERIF, "seeded", "README.md"), "w").write("\n".join(out) + "\n")
 print(len(rows), "rows;", sum("**caught**" in r for r in rows), "caught")
